@@ -1,9 +1,9 @@
 (* C18 -- periodic table data are complete and mutually consistent.
    Only statements here; proofs are in Proofs.PeriodicTable.  Tables are regenerated from /repo. *)
 From Coq Require Import ZArith List String Bool.
-From Model Require Import PyBase PeriodicTable IsoBits.
-From Gen Require Import Elements RuntimeDump IsoLayout.
-From Proofs Require Import PeriodicTable IsoLayoutTie PeriodicMatcher.
+From Model Require Import PyBase PeriodicTable IsoBits Valence.
+From Gen Require Import Elements RuntimeDump IsoLayout ElemCode ElemRules ElemVariants.
+From Proofs Require Import PeriodicTable IsoLayoutTie PeriodicMatcher ElemCodeTie ElemRulesTie ElemVariantsTie.
 Import ListNotations.
 Open Scope Z_scope.
 
@@ -177,3 +177,190 @@ Theorem C18_tabulated_state_example :
   exists e, from_number 7 = Some e /\ In (mkLA 7 (Some 15) 1 false 0 1 (Some 4) 0 []) (state_atoms e).
 Proof. exact state_atoms_example. Qed.
 Print Assumptions C18_tabulated_state_example.
+
+(* ---- the validating / lookup / mass methods AS WRITTEN IN THE SOURCE: Gen.ElemCode is regenerated from the bodies of
+        Element.isotope / charge / is_radical (setters), __init__, atomic_mass, from_symbol, from_atomic_number of
+        chython/periodictable/base/element.py (tools/gen_elemcode.py, statement by statement, fail closed) ---- *)
+
+(* the regenerated bodies are the hand model, for EVERY value (None, ints, bools, other types), every element record and every
+   state of the class cache that the code itself can produce (a changed test, bound, exception or table breaks these) *)
+Theorem C18_source_isotope_setter_is_model : forall e v, g_isotope_set e v = isotope_set_spec e v.
+Proof. exact g_isotope_set_eq. Qed.
+Print Assumptions C18_source_isotope_setter_is_model.
+
+Theorem C18_source_charge_setter_is_model : forall e v, g_charge_set e v = charge_set_spec v.
+Proof. exact g_charge_set_eq. Qed.
+Print Assumptions C18_source_charge_setter_is_model.
+
+Theorem C18_source_radical_setter_is_model : forall e v, g_is_radical_set e v = is_radical_set_spec v.
+Proof. exact g_is_radical_set_eq. Qed.
+Print Assumptions C18_source_radical_setter_is_model.
+
+Theorem C18_source_init_is_model : forall e i c r d, g_init e i c r d = init_spec e i c r d.
+Proof. exact g_init_eq. Qed.
+Print Assumptions C18_source_init_is_model.
+
+Theorem C18_source_atomic_mass_is_model : forall e iso, g_atomic_mass e iso = mass_spec e iso.
+Proof. exact g_atomic_mass_eq. Qed.
+Print Assumptions C18_source_atomic_mass_is_model.
+
+Theorem C18_source_from_symbol_is_model : forall s, g_from_symbol s = from_symbol_spec s.
+Proof. exact g_from_symbol_eq. Qed.
+Print Assumptions C18_source_from_symbol_is_model.
+
+Theorem C18_source_from_atomic_number_is_model : forall c n, cache_ok c ->
+  g_from_atomic_number c n = (from_number_spec n, filled_cache).
+Proof. exact g_from_atomic_number_eq. Qed.
+Print Assumptions C18_source_from_atomic_number_is_model.
+
+(* any sequence of number lookups from a fresh interpreter (empty class cache): every answer is the model's, whatever was
+   asked before -- the cache never changes an answer *)
+Theorem C18_source_lookup_history : forall ns c, cache_ok c -> run_lookups c ns = map from_number_spec ns.
+Proof. exact run_lookups_eq. Qed.
+Print Assumptions C18_source_lookup_history.
+
+(* clause 1 of C18 on the translated lookups, and rejection of every number outside 1..118 *)
+Theorem C18_source_lookups_inverse_and_standard : forall n c, 1 <= n <= 118 -> cache_ok c ->
+  exists e, fst (g_from_atomic_number c n) = Ok e /\ e_num e = n /\ e_sym e = std_symbol n /\
+            exists e', g_from_symbol (e_sym e) = Ok e' /\ e_num e' = n /\ e_sym e' = e_sym e.
+Proof. exact source_lookups_inverse_std. Qed.
+Print Assumptions C18_source_lookups_inverse_and_standard.
+
+Theorem C18_source_lookups_reject : forall n c, cache_ok c -> ~ (1 <= n <= 118) -> fst (g_from_atomic_number c n) = Err ValueError.
+Proof. exact source_lookups_reject. Qed.
+Print Assumptions C18_source_lookups_reject.
+
+(* every tabulated state is constructible by the translated __init__ and stored unchanged (with and without isotope); an int
+   isotope that is not tabulated, or a charge outside -4..4, raises ValueError; delta_isotope counts from mdl_isotope *)
+Theorem C18_source_tabulated_states_constructible : forall e i c r,
+  isotope_accepted e i = true -> -4 <= c <= 4 ->
+  g_init e (VInt i) (VInt c) (VBool r) VNone = Ok (VInt i, VInt c, VBool r) /\
+  g_init e VNone (VInt c) (VBool r) VNone = Ok (VNone, VInt c, VBool r).
+Proof. intros e i c r Hi Hc. split; [exact (init_tabulated e i c r Hi Hc) | exact (init_no_isotope e c r Hc)]. Qed.
+Print Assumptions C18_source_tabulated_states_constructible.
+
+Theorem C18_source_untabulated_states_rejected : forall e i c r,
+  (isotope_accepted e i = false -> g_init e (VInt i) (VInt c) (VBool r) VNone = Err ValueError) /\
+  (isotope_accepted e i = true -> ~ (-4 <= c <= 4) -> g_init e (VInt i) (VInt c) (VBool r) VNone = Err ValueError).
+Proof. exact init_rejects. Qed.
+Print Assumptions C18_source_untabulated_states_rejected.
+
+Theorem C18_source_delta_isotope : forall e c r d, g_init e VNone c r (VInt d) = g_init e (VInt (e_mdl e + d)) c r VNone.
+Proof. exact init_delta. Qed.
+Print Assumptions C18_source_delta_isotope.
+
+(* the translated atomic_mass raises for no element: the average is defined and positive, and so is the mass of every isotope
+   the translated setter accepts *)
+Theorem C18_source_mass_defined : forall e, In e elements ->
+  (exists m, g_atomic_mass e None = Ok (MSum m) /\ 0 < m) /\
+  (forall i, isotope_accepted e i = true -> exists m, g_atomic_mass e (Some i) = Ok (MOne m) /\ 0 < fst m).
+Proof. exact source_mass_defined. Qed.
+Print Assumptions C18_source_mass_defined.
+
+Theorem C18_source_examples :
+  (exists e, g_from_symbol "C" = Ok e /\ e_num e = 6 /\
+             g_init e (VInt 14) (VInt (-1)) (VBool true) VNone = Ok (VInt 14, VInt (-1), VBool true) /\
+             g_init e (VInt 15) (VInt 0) (VBool false) VNone = Err ValueError /\
+             g_init e VNone (VInt 5) (VBool false) VNone = Err ValueError /\
+             g_init e VNone (VInt 0) (VBool false) (VInt 1) = Ok (VInt 13, VInt 0, VBool false) /\
+             g_init e VOther (VInt 0) (VBool false) VNone = Err TypeError /\
+             g_atomic_mass e (Some 13) = Ok (MOne (13003355, 6%nat))) /\
+  g_from_symbol "Xx" = Err ValueError /\
+  run_lookups [] [8; 0; 6; 119; 8] = map from_number_spec [8; 0; 6; 119; 8].
+Proof. exact source_examples. Qed.
+Print Assumptions C18_source_examples.
+
+(* ---- the valence-table compilers AS WRITTEN IN THE SOURCE: Gen.ElemRules is regenerated from the bodies of
+        Element._compiled_valence_rules / _compiled_saturation_rules / _compiled_charge_radical / valence_rules
+        (tools/gen_elemrules.py: assignments, defaultdict / set / list mutations, if/else, nested for loops, raising subscripts) ---- *)
+
+(* the regenerated compiler is the hand model of Model.Valence (on which the C04 theorems are proved) for EVERY element record,
+   including records whose tables make it raise *)
+Theorem C18_source_valence_compiler_is_model : forall e, g_compiled_valence_rules e = compiled_rules e.
+Proof. exact g_compiled_valence_rules_eq. Qed.
+Print Assumptions C18_source_valence_compiler_is_model.
+
+Theorem C18_source_valence_rules_is_model : forall e c r v, g_valence_rules e c r v = valence_rules e c r v.
+Proof. exact g_valence_rules_eq. Qed.
+Print Assumptions C18_source_valence_rules_is_model.
+
+(* clause "valence rule tables compile" on the translated code: for each of the 118 elements both compilers return, the rule
+   table is non-empty and well formed (charges -4..4, bond orders 1..3, neighbour numbers 1..118, hydrogens 0..4, set = keys of dict) *)
+Theorem C18_source_valence_tables_compile : forall e, In e elements ->
+  exists t l, g_compiled_valence_rules e = Ok t /\ g_compiled_saturation_rules e = Ok l /\ t <> [] /\ rule_table_ok t = true.
+Proof. exact source_valence_tables_compile. Qed.
+Print Assumptions C18_source_valence_tables_compile.
+
+(* clause "every tabulated hydrogen count is representable": whatever rule the translated valence_rules returns, for any element
+   of the table and any charge / radical / valence, assigns 0..4 hydrogens *)
+Theorem C18_source_rule_hydrogens_representable : forall e c r v l x, In e elements ->
+  g_valence_rules e c r v = Ok l -> In x l -> 0 <= r_h x <= 4.
+Proof. exact source_rule_hydrogens. Qed.
+Print Assumptions C18_source_rule_hydrogens_representable.
+
+Theorem C18_source_compile_empty_common : forall e, e_common e = [] -> g_compiled_valence_rules e = Err IndexError.
+Proof. exact source_compile_empty_common. Qed.
+Print Assumptions C18_source_compile_empty_common.
+
+Theorem C18_source_rules_examples :
+  g_valence_rules el_C 0 false 4 = Ok [mkRule [] [] 0] /\
+  g_valence_rules el_C 0 false 1 = Ok [mkRule [] [] 3] /\
+  g_valence_rules el_C 0 false 5 = Err ValenceError /\
+  g_valence_rules el_N 1 false 4 = Ok [mkRule [] [] 0] /\
+  g_compiled_charge_radical el_H = [(1, false); (0, true); (-1, false)] /\
+  g_compiled_valence_rules (mkElem "X" 119 8 1 [] [] [] [] (0, 0%nat) 0 false false) = Err IndexError /\
+  g_compiled_valence_rules (mkElem "X" 119 8 1 [] [] [1] [(0, true, 0, [(1, "Xx"%string)])] (0, 0%nat) 0 false false) = Err KeyError.
+Proof. exact source_rules_examples. Qed.
+Print Assumptions C18_source_rules_examples.
+
+(* ---- the generated Query* / Dynamic* classes AS WRITTEN IN THE SOURCE: Gen.ElemVariants is regenerated from the two class-creating
+        loops of periodictable/__init__.py and from atomic_symbol / from_symbol / from_atomic_number of DynamicElement (base/dynamic.py)
+        and QueryElement (base/query.py) (tools/gen_elemvariants.py) ---- *)
+
+(* clause "query and dynamic variants exist with the same number": for every element both variant classes are found by number and by
+   symbol, carry the element's number (the query class also its reference isotope) and report the element's symbol *)
+Theorem C18_source_variants_exist : forall e, In e elements ->
+  g_dynamic_from_atomic_number (e_num e) = Ok (mkV ("Dynamic" ++ e_sym e) (e_num e) None) /\
+  g_dynamic_from_symbol (e_sym e) = Ok (mkV ("Dynamic" ++ e_sym e) (e_num e) None) /\
+  g_query_from_atomic_number (e_num e) = Ok (QClass (mkV ("Query" ++ e_sym e) (e_num e) (Some (e_mdl e)))) /\
+  g_query_from_symbol (e_sym e) = Ok (QClass (mkV ("Query" ++ e_sym e) (e_num e) (Some (e_mdl e)))) /\
+  g_dynamic_symbol (mkV ("Dynamic" ++ e_sym e) (e_num e) None) = e_sym e /\
+  g_query_symbol (mkV ("Query" ++ e_sym e) (e_num e) (Some (e_mdl e))) = e_sym e.
+Proof. exact source_variants_exist. Qed.
+Print Assumptions C18_source_variants_exist.
+
+Theorem C18_source_variants_by_number : forall n, 1 <= n <= 118 ->
+  exists d q, g_dynamic_from_atomic_number n = Ok d /\ g_query_from_atomic_number n = Ok (QClass q) /\
+              g_dynamic_symbol d = std_symbol n /\ g_query_symbol q = std_symbol n /\ v_num d = n /\ v_num q = n.
+Proof. exact source_variants_by_number. Qed.
+Print Assumptions C18_source_variants_by_number.
+
+Theorem C18_source_variants_reject : forall n, ~ (1 <= n <= 118) ->
+  g_dynamic_from_atomic_number n = Err ValueError /\ g_query_from_atomic_number n = Err ValueError.
+Proof. exact source_variants_reject. Qed.
+Print Assumptions C18_source_variants_reject.
+
+(* the symbol a variant reports is its class name without the prefix, for ANY symbol string (not only the 118) *)
+Theorem C18_source_variant_symbol_exact : forall s n m,
+  g_dynamic_symbol (mkV ("Dynamic" ++ s) n m) = s /\ g_query_symbol (mkV ("Query" ++ s) n m) = s.
+Proof. intros s n m. split; [apply dynamic_symbol_exact | apply query_symbol_exact]. Qed.
+Print Assumptions C18_source_variant_symbol_exact.
+
+(* the classes found in the running interpreter are exactly the translated ones (118 each, one per element) *)
+Theorem C18_source_variants_are_runtime :
+  same_members (fun x y => String.eqb (fst x) (fst y) && (snd x =? snd y))
+               rt_dynamic (map (fun c => (v_name c, v_num c)) g_dynamic_classes) = true /\
+  same_members (fun x y => let '(s1, n1, m1) := x in let '(s2, n2, m2) := y in String.eqb s1 s2 && (n1 =? n2) && (m1 =? m2))
+               rt_query (map (fun c => (v_name c, v_num c, match v_mdl c with Some m => m | None => -1 end)) g_query_classes) = true /\
+  List.length g_dynamic_classes = 118%nat /\ List.length g_query_classes = 118%nat /\
+  same_members (fun x y => String.eqb (e_sym x) (e_sym y)) import_order elements = true.
+Proof. exact source_variants_are_runtime. Qed.
+Print Assumptions C18_source_variants_are_runtime.
+
+Theorem C18_source_variant_examples :
+  g_query_from_symbol "A" = Ok QAnyElement /\ g_query_from_symbol "M" = Ok QAnyMetal /\
+  g_query_from_symbol "Xx" = Err ValueError /\ g_dynamic_from_symbol "A" = Err ValueError /\
+  g_dynamic_from_atomic_number 66 = Ok (mkV "DynamicDy" 66 None) /\ g_dynamic_symbol (mkV "DynamicDy" 66 None) = "Dy"%string /\
+  g_query_from_atomic_number 35 = Ok (QClass (mkV "QueryBr" 35 (Some 80))).
+Proof. exact source_variant_examples. Qed.
+Print Assumptions C18_source_variant_examples.
